@@ -187,7 +187,7 @@ def derivatives_thermal_numba(node_pit, branch_pit,
             dfb_dt[i] = - cp_b[i] * mdot
             dfb_dtout[i] = rho[i] * area * cp_b[i] / dt * length + cp_b[i] * mdot + alpha * length
 
-            if ~branches_flow[i] & (abs(branch_pit[i][LENGTH] < 1.e-8)):
+            if ~branches_flow[i] & (abs(branch_pit[i][LENGTH]) <= 1.e-10):
                 fb[i] = rho[i] * area * cp_b[i] * (t_init_i1[i] - tvor) * (1 / dt) - alpha * (t_amb - t_init_i1[i]) + qext
                 dfb_dt[i] = 0
                 dfb_dtout[i] = rho[i] * area * cp_b[i] / dt + alpha
